@@ -210,3 +210,15 @@ def gen_store(items):
             raise Fail(f + ': ValueType::deserialize does not accept exactly 0..=max discriminant')
         return '\n'.join(D('CD_TYPE_' + n.upper(), ids[n], f + ' ValueType::' + n) for n in want)
     items.append(compact_doc_type_ids)
+
+    # ---- src/indexer/segment_serializer.rs: the temporary store of a segment that will be remapped ----
+    def temp_store_settings():
+        f = 'src/indexer/segment_serializer.rs'
+        text = strip_comments(src(f))
+        m = re.search(r'if\s+remapping_required\s*\{.*?StoreWriter::new\(\s*store_write\s*,\s*Compressor::(\w+)\s*,\s*([0-9_]+)\s*,', text, flags=re.S)
+        if not m:
+            raise Fail(f + ': StoreWriter::new of the temporary doc store not found')
+        if m.group(1) != 'None':
+            raise Fail(f + ': the temporary doc store is not written with Compressor::None but ' + m.group(1))
+        return D('TEMP_STORE_BLOCKSIZE', int(m.group(2).replace('_', '')), f + ' block size of the temporary (compressor none) doc store')
+    items.append(temp_store_settings)
